@@ -61,6 +61,20 @@ func c13Codecs(thorough bool) []lib.Compression {
 	return out
 }
 
+// the search tier (run after a model/implementation disagreement) uses quick-sized cases,
+// twice as many, with other seeds
+func c13Deep(c *Ctx) bool { return c.Tier == "thorough" }
+
+func c13N(c *Ctx, quick, thorough int) int {
+	switch c.Tier {
+	case "thorough":
+		return thorough
+	case "search":
+		return 2 * quick
+	}
+	return quick
+}
+
 func c13Cause(err error) error {
 	for err != nil {
 		c, ok := err.(interface{ Cause() error })
@@ -670,7 +684,7 @@ type c13Seq struct {
 func c13Seqs(c *Ctx, r *lib.Rng) []c13Seq {
 	var out []c13Seq
 	maxMsgs := 40
-	if c.Thorough() {
+	if c13Deep(c) {
 		maxMsgs = 400
 	}
 	ladder := append(append(append([]int(nil), c13Small...), c13Mid...), c13Big...)
@@ -680,7 +694,7 @@ func c13Seqs(c *Ctx, r *lib.Rng) []c13Seq {
 	// growth steps of the reusable buffer, up and down
 	var steps []int
 	top := 18
-	if c.Thorough() {
+	if c13Deep(c) {
 		top = 22
 	}
 	for p := 15; p <= top; p++ {
@@ -699,7 +713,7 @@ func c13Seqs(c *Ctx, r *lib.Rng) []c13Seq {
 	// block sized messages of incompressible data: decompressor checkpoints fall everywhere
 	var blocks []int
 	nb := 24
-	if c.Thorough() {
+	if c13Deep(c) {
 		nb = 120
 	}
 	for i := 0; i < nb; i++ {
@@ -707,12 +721,12 @@ func c13Seqs(c *Ctx, r *lib.Rng) []c13Seq {
 	}
 	out = append(out, c13Seq{"blocks-random", blocks, 1})
 	out = append(out, c13Seq{"blocks-text", blocks, 2})
-	extra := c.N(2, 14)
+	extra := c13N(c, 2, 14)
 	for i := 0; i < extra; i++ {
 		var sz []int
 		n := r.Range(1, maxMsgs)
 		budget := 2 << 20
-		if c.Thorough() {
+		if c13Deep(c) {
 			budget = 8 << 20
 		}
 		for j := 0; j < n && budget > 0; j++ {
@@ -830,10 +844,10 @@ func c13Corpus(c *Ctx) {
 
 func c13Streams(c *Ctx) error {
 	r := c.Rng.Fork()
-	codecs := c13Codecs(c.Thorough())
+	codecs := c13Codecs(c13Deep(c))
 	seqs := c13Seqs(c, r)
 	fullBudget := int64(4 << 20)
-	if c.Thorough() {
+	if c13Deep(c) {
 		fullBudget = 64 << 20
 	}
 	for si, sq := range seqs {
@@ -890,8 +904,8 @@ func fpOf(b []byte) (int, uint64) {
 
 func c13Ckpt(c *Ctx) error {
 	r := c.Rng.Fork()
-	n := c.N(42, 480)
-	codecs := c13Codecs(c.Thorough())
+	n := c13N(c, 42, 480)
+	codecs := c13Codecs(c13Deep(c))
 	for i := 0; i < n; i++ {
 		cr := r.Fork()
 		comp := codecs[i%len(codecs)]
@@ -1069,7 +1083,7 @@ func c13Ckpt(c *Ctx) error {
 
 func c13Frames(c *Ctx) error {
 	r := c.Rng.Fork()
-	n := c.N(40, 600)
+	n := c13N(c, 40, 600)
 	for i := 0; i < n; i++ {
 		cr := r.Fork()
 		withMagic := cr.Bool()
@@ -1239,7 +1253,7 @@ func c13Uvarint(c *Ctx) error {
 	vals := []uint64{0, 1, 2, 126, 127, 128, 129, 255, 256, 16383, 16384, 16385, 1<<21 - 1, 1 << 21, 1<<21 + 1, 1<<28 - 1, 1 << 28,
 		1<<32 - 1, 1 << 32, 1<<35 - 1, 1 << 35, 1<<42 - 1, 1 << 42, 1<<49 - 1, 1 << 49, 1<<56 - 1, 1 << 56, 1<<63 - 1, 1 << 63, 1<<63 + 1, 1<<64 - 1,
 		32767, 32768, 32769, 65536, 1 << 20, 4<<20 + 1}
-	n := c.N(120, 2000)
+	n := c13N(c, 120, 2000)
 	for i := 0; i < n; i++ {
 		vals = append(vals, r.U64()>>uint(r.Intn(64)))
 	}
@@ -1292,7 +1306,7 @@ func c13Uvarint(c *Ctx) error {
 		{0xff, 0xff, 0xff, 0xff, 0xff, 0xff, 0xff, 0xff, 0xff, 0x81, 0x00},
 		{0x80, 0x00}, {0x81, 0x80, 0x00}, {0xff, 0x00, 0x07},
 	}
-	nm := c.N(40, 600)
+	nm := c13N(c, 40, 600)
 	for i := 0; i < nm; i++ {
 		l := r.Range(0, 12)
 		b := make([]byte, l)
@@ -1315,7 +1329,7 @@ func c13Uvarint(c *Ctx) error {
 	}
 	// buffer growth function
 	npo := []int{0, 1, 2, 3, 4, 5, 7, 8, 9, 32767, 32768, 32769, 65535, 65536, 65537, 1 << 20, 1<<20 + 1, 4<<20 + 1, 1<<31 - 1, 1 << 31, 1<<31 + 1, 1 << 32, 1<<32 + 1, 1<<40 + 12345, 1<<62 - 1, 1 << 62}
-	for i := 0; i < c.N(60, 1000); i++ {
+	for i := 0; i < c13N(c, 60, 1000); i++ {
 		npo = append(npo, int(r.U64()>>uint(r.Range(2, 63))))
 	}
 	for _, v := range npo {
